@@ -664,6 +664,11 @@ func c13RunMode(x *X, c *Chooser, shape c13Shape, nregs int, passes int, endsOnl
 			return
 		}
 	}
+	// how detached rows are constructed (mode "ctor": every constructor; otherwise NewRow)
+	ctor := 0
+	if mode == "ctor" {
+		ctor = 1 + c.Choose(3)
+	}
 	c.Logf("shape %s", shape)
 	fired := false
 	doRegs := func(pos int) bool {
@@ -728,8 +733,20 @@ func c13RunMode(x *X, c *Chooser, shape c13Shape, nregs int, passes int, endsOnl
 			w.rows[st.row].ptr = rr[len(rr)-1]
 			w.rows[st.row].att = true
 		case "NewRow":
-			c.Logf("r%d := tabular.NewRow()", st.row)
-			w.rows[st.row].ptr = tabular.NewRow()
+			switch ctor {
+			case 1:
+				c.Logf("r%d := tabular.NewRowWithCapacity(18)   // far more room than cells", st.row)
+				w.rows[st.row].ptr = tabular.NewRowWithCapacity(18)
+			case 2:
+				c.Logf("r%d := tabular.NewRowWithCapacity(0)", st.row)
+				w.rows[st.row].ptr = tabular.NewRowWithCapacity(0)
+			case 3:
+				c.Logf("r%d := t.NewRowSizedFor()", st.row)
+				w.rows[st.row].ptr = w.t.NewRowSizedFor()
+			default:
+				c.Logf("r%d := tabular.NewRow()", st.row)
+				w.rows[st.row].ptr = tabular.NewRow()
+			}
 		case "Add":
 			r := w.rows[st.row]
 			w.expectRowAdd(e, st.row, r.added, false)
@@ -785,6 +802,19 @@ func runC13(x *X) {
 	})
 	// cells are values: callbacks registered on a Cell before it is copied into rows are inherited by
 	// every copy; callbacks registered on one live copy afterwards belong to that copy alone.
+	x.Explore("single-other-row-constructors", ExploreOpts{ShardDepth: 2, Bound: fmt.Sprintf("%d shapes with at least one cell row x rows made by NewRowWithCapacity(18) | NewRowWithCapacity(0) | t.NewRowSizedFor() x 96 registrations x every step position x 1 pass", len(shapes))}, func(c *Chooser) {
+		shape := shapes[c.Choose(len(shapes))]
+		hasRow := false
+		for _, n := range shape.rows {
+			if n >= 0 {
+				hasRow = true
+			}
+		}
+		if !hasRow {
+			return
+		}
+		c13RunMode(x, c, shape, 1, 1, false, "ctor")
+	})
 	x.Explore("cell-copies", ExploreOpts{ShardDepth: 2, Bound: "0..3 callbacks on a template cell; the cell stored twice (two rows | same row); <=3 further registrations each on either live copy; 1-2 passes"}, func(c *Chooser) {
 		c13CellCopies(x, c)
 	})
